@@ -1,36 +1,44 @@
 --------------------------- MODULE Trace_LineWrap ---------------------------
 (* Trace validation for C04.                                                                                   *)
-(* level (i)  c = [lvl |-> 1, top, width, cont0, cont1, flat, out]: `top` a described list of the Gen_LineWrap     *)
-(*            universe, `flat` the harness' own sep.join of the real items (must equal LineWrap!Text(top), else   *)
-(*            the harness built something else: machinery), `out` the lines str(JoinableStringList) produced.      *)
-(* level (ii) c = [lvl |-> 2, width, wide, out]: the lines fgen printed for one IR with an effectively infinite   *)
-(*            width and with the style's width.                                                                   *)
+(* level (i)  c = [lvl |-> 1, top, flat, runs]: `top` a described list of the Gen_LineWrap universe, `flat` the      *)
+(*            harness' own sep.join of the real items (must equal LineWrap!Text(top), else the harness built       *)
+(*            something else: machinery), runs[r] = [width, cont0, cont1, out]: the lines str(JoinableStringList)  *)
+(*            produced under one configuration, decided by LineWrap!Accept1.                                       *)
+(* level (ii) c = [lvl |-> 2, width, wide, out, gf]: the lines fgen printed for one IR with an effectively         *)
+(*            infinite width and with the style's width; gf: gfortran -ffree-line-length-<width>                   *)
+(*            -Werror=line-truncation -fsyntax-only accepted `out`.  Clauses: gfortran-rejects, lone-ampersand,    *)
+(*            tokens:<kind of the expected token> (a = line of `out` on which the first differing statement ends,  *)
+(*            b = the same for `wide`), line-long / line-near (a = line number).                                   *)
 (* Lines are sequences of character codes.  Prints <<"VERDICT", id, ok, clause, n>> and, per finding k,            *)
 (* <<"VERDICT", "id#k", FALSE, clause, a, b>>  (a, b: clause-specific positions).                                  *)
 EXTENDS LineWrap, Json, IOUtils, SequencesExt
 Cases == JsonDeserialize(IOEnv.CASES)
 VARIABLE tid
 
+\* one described list, printed under several configurations:  runs[r] = [width, cont0, cont1, out]
+RECURSIVE Runs1(_, _, _, _)
+Runs1(c, want, r, acc) ==
+  IF r > Len(c.runs) THEN acc
+  ELSE LET f == Accept1(want, c.runs[r]) IN
+       Runs1(c, want, r + 1, IF f = <<>> THEN acc ELSE Append(acc, <<f[1], r, f[2]>>))
 Judge1(c) ==
   IF ~(c.top.k = "L" /\ WF(c.top, 3)) THEN <<<<"machinery:ill-formed", 0, 0>>>>
   ELSE IF c.flat # Text(c.top) THEN <<<<"machinery:flat-differs", FirstDiff(c.flat, Text(c.top)), 0>>>>
   ELSE IF ~Aligned(c.top) THEN <<<<"machinery:not-aligned", 0, 0>>>>
-  ELSE LET r == Accept1([top |-> c.top, width |-> c.width, cont0 |-> c.cont0, cont1 |-> c.cont1, out |-> c.out])
-       IN IF r[1] = "ok" THEN <<>> ELSE <<<<r[1], r[2], 0>>>>
+  ELSE Runs1(c, Flatten(Statements(<<Text(c.top)>>), 1, <<>>), 1, <<>>)
 
-\* what kind of token the reading of the infinitely wide text has at the first difference
-TokKind(t) == IF t[1] \in {SQ, DQ} THEN
-                  (IF \E i \in 2..(Len(t) - 2) : t[i] = t[1] /\ t[i + 1] = t[1] THEN "literal-doubled-quote" ELSE "literal")
-              ELSE IF IsWord(t[1]) THEN "word" ELSE "punct"
 Judge2(c) ==
   LET rw == Read(c.wide)
-      ro == Read(c.out)
+      ro == ReadChecked(c.out, c.width, 4)
       d == FirstDiff(rw.stmts, ro.stmts)
       both == d # 0 /\ d <= Len(rw.stmts) /\ d <= Len(ro.stmts)
       j == IF both THEN FirstDiff(rw.stmts[d], ro.stmts[d]) ELSE 0
       kind == IF both /\ j <= Len(rw.stmts[d]) THEN TokKind(rw.stmts[d][j]) ELSE "count"
-      bad == BadLines(c.out, c.width, 4)
-  IN (IF d = 0 THEN <<>>
+      bad == ro.bad
+      lone == LoneAmp(c.out, 1)
+  IN (IF c.gf THEN <<>> ELSE <<<<"gfortran-rejects", 0, 0>>>>) \o
+     (IF lone = 0 THEN <<>> ELSE <<<<"lone-ampersand", lone, 0>>>>) \o
+     (IF d = 0 THEN <<>>
       ELSE <<<<"tokens:" \o kind, IF d <= Len(ro.ends) THEN ro.ends[d] ELSE Len(c.out), IF d <= Len(rw.ends) THEN rw.ends[d] ELSE Len(c.wide)>>>>)
      \o [i \in DOMAIN bad |-> <<"line-" \o bad[i][2], bad[i][1], 0>>]
 
